@@ -570,6 +570,12 @@ def total_hydrogens_bad(m):
     return bad
 
 
+def one_sided_bonds(m):
+    """bonds that only one of their two atoms knows (or that the two atoms hold as different Bond objects): what the Graph API must
+    never leave behind — "its bonds" of an atom would no longer be defined"""
+    return [(n, k) for n, ms in m._bonds.items() for k, b in ms.items() if m._bonds.get(k, {}).get(n) is not b][:4]
+
+
 def read_aggregates(m):
     """(charge, radical flag, formula, mass) as the object answers them now; a raise is part of the answer"""
     out = []
@@ -665,7 +671,13 @@ def apply_history(src, ops):
                 from ..gen import pyx2py
                 pyx2py.install()
                 kw = {} if op[1] else {'compressed': False}
-                nxt.append(type(m).unpack(m.pack(**kw), **kw) if op[2] == 'pack' else type(m).unpach(m.pach(**kw), **kw))
+                pk = dict(kw, order=list(m._atoms)[::-1]) if op[2] == 'pack-reversed' else kw
+                if op[2] == 'bytes':
+                    nxt.append(type(m).unpack(bytes(m)))
+                elif op[2] == 'pach':
+                    nxt.append(type(m).unpach(m.pach(**pk), **kw))
+                else:
+                    nxt.append(type(m).unpack(m.pack(**pk), **kw))
             elif k == 'transaction':
                 with m:
                     for e in op[1]:
@@ -1220,7 +1232,7 @@ def history_cases(ctx):
             elif kind == 'union':
                 ops = [['union', rng.choice(['O', 'C[NH3+]', '[Na+]', 'c1ccccc1'])], ['substructure', sel]]
             elif kind == 'pack':
-                ops = [['pack', rng.random() < 0.7, rng.choice(['pack', 'pach'])]]
+                ops = [['pack', rng.random() < 0.7, rng.choice(['pack', 'pach', 'pack-reversed', 'bytes'])]]
             elif kind in ('ior', 'union_inplace'):   # merge in place; numbers colliding (remapped by union) or already disjoint
                 ops = [[kind, rng.choice(['O', 'C[NH3+]', '[Na+]', 'C[CH2] |^1:1|', 'CC(=O)[O-]', '[Cl-]']), rng.choice([0, 1, 5])]]
             else:
@@ -1295,6 +1307,8 @@ def history_stream(ctx):
                 bad.append((i, 'totals', what, '', str(got)[:120], str(want)[:120], []))
             for n, sym, got, want in total_hydrogens_bad(r)[:2]:
                 bad.append((i, n, sym, 'total_hydrogens', got, want, []))
+            for n, k in one_sided_bonds(r)[:2]:
+                bad.append((i, n, r._atoms[n].atomic_symbol, 'one-sided bond', k, '', []))
         key = (wire.mol_to_line(src), json.dumps(ops))
         ctx.count(('history', key), nontrivial=any(atom_ctx(r, n) != (atom_ctx(src, n) if n in src._atoms else None)
                                                   for r in results for n in r._atoms))
@@ -1329,6 +1343,11 @@ def history_oracle(src, ops, known_gaps=True):
                      f'{src} (formula, charge, radical flag and mass read before) after {json.dumps(ops)[:300]} -> {r.copy()}: {what} answers {got}, '
                      f'the atoms give {want}')]
     for r in results:
+        lone = one_sided_bonds(r)
+        if lone:
+            return [(f'C04/history/{kind}/bond-known-to-one-atom-only',
+                     f'{src} (atom numbers {sorted(src._atoms)}) after {json.dumps(ops)[:300]}: bonds {lone} are known to their first atom only; '
+                     f'atoms now {[(n, a.atomic_symbol) for n, a in r._atoms.items()][:12]}')]
         th = total_hydrogens_bad(r)
         if th:
             n, sym, got, want = th[0]
